@@ -80,12 +80,44 @@ class Sim:
         self.order: list[Rec] = []
         self._l1 = self._on_state
         self._l2 = self._on_msg
-        self.bus.register(ConnectionStateChangedEvent, self._l1)
-        self.bus.register(MessageReceivedEvent, self._l2)
+        # the recorders come first: they see every event at the moment it is emitted (a listener behind a suspending or re-entrant
+        # listener sees it later, possibly after the events that listener caused)
+        self.bus.register(ConnectionStateChangedEvent, self._l1, priority=0)
+        self.bus.register(MessageReceivedEvent, self._l2, priority=0)
+        self.extra_listeners = []
         self.connect_futs = []      # (host, port, future) of pending open_connection calls
         self.net.connect_handler = self._on_connect
         self.tasks = []
         self.closed = False
+
+    # ---- other users of the event bus (helpers the life cycle runs through: EventBus.emit awaits coroutine listeners in priority
+    # order and swallows their exceptions)
+    def add_listeners(self, mode):
+        """mode: 'suspend' (coroutine listeners that yield to the loop), 'raise' (listeners that raise), 'reentrant' (a listener that
+        calls disconnect() on the connection from inside its CONNECTED / CLOSING notification)"""
+        from aioslsk.events import ConnectionStateChangedEvent, MessageReceivedEvent, PeerInitializedEvent
+        from aioslsk.network.connection import CloseReason, DataConnection
+
+        if mode == 'suspend':
+            async def l(ev):
+                await asyncio.sleep(0)
+                await asyncio.sleep(0)
+        elif mode == 'raise':
+            def l(ev):
+                raise RuntimeError('listener failed')
+        elif mode == 'reentrant':
+            async def l(ev):
+                if isinstance(ev, ConnectionStateChangedEvent) and isinstance(ev.connection, DataConnection) \
+                        and ev.state.name in ('CONNECTED', 'CLOSING') and not getattr(ev.connection, '_verif_kicked', False):
+                    ev.connection._verif_kicked = ev.state.name == 'CONNECTED'
+                    await ev.connection.disconnect(CloseReason.REQUESTED)
+        else:
+            raise ValueError(mode)
+        self.extra_listeners.append(l)      # the bus keeps weak references only
+        for ty, prio in ((ConnectionStateChangedEvent, 50), (MessageReceivedEvent, 50), (PeerInitializedEvent, 50)):
+            self.bus.register(ty, l, priority=prio)
+        # and one behind the recorders
+        self.bus.register(ConnectionStateChangedEvent, l, priority=150)
 
     # ---- observation
     def rec(self, conn) -> Rec:
@@ -584,7 +616,11 @@ def run_scenario(sc):
     the model events it stands for."""
     sim = ConnSim(sc['kind'], obf=sc.get('obf', False), typ=sc.get('typ', 'P'), wc_hang=sc.get('wch', False), wc_instant=sc.get('wci', False))
     try:
-        evs = [sim.act(a) for a in sc['acts']]
+        evs = []
+        for n_act, a in enumerate(sc['acts']):
+            if sc.get('listeners') and n_act == (1 if sc.get('listeners_late') else 0):
+                sim.add_listeners(sc['listeners'])      # registered before the first action, or late (after it)
+            evs.append(sim.act(a))
         r = sim.result()
         r['events'] = evs
         # grace period (monitor only, after the compared snapshot): every disconnect() in flight must be over after
